@@ -33,6 +33,9 @@ class ConclusionSelector(LogicalOperator, ABC):
         super()._reset_only_my_cache_()
         # what was concluded belongs to one evaluation, the next evaluation concludes anew.
         self.concluded_before = {True: SeenSet(), False: SeenSet()}
+        # ... and does not start with what was selected for the last result of an evaluation whose iterator is still open
+        # (the clean-up around the yield of a suspended generator has not run).
+        self._conclusion_.clear()
 
     def update_conclusion(self, output: Dict[int, HashedValue], conclusions: typing.Set[Conclusion]) -> None:
         if not conclusions:
